@@ -20,7 +20,8 @@ REPO = os.environ.get("REPO", "/repo")
 SPEC = os.path.join(VERIF, "spec")
 HARNESS = os.path.join(VERIF, "harness")
 BUILD = os.path.join(VERIF, ".build")
-EVID = os.path.join(VERIF, "evidence")
+# evidence describes runs against /repo itself; self-test runs against scratch copies (REPO=...) write elsewhere
+EVID = os.path.join(VERIF, "evidence") if os.path.realpath(REPO) == "/repo" else os.path.join(BUILD, "evidence-scratch")
 REPLAY = os.path.join(VERIF, "replay")
 TLAJAR = "/opt/veriftools/tla/tla2tools.jar:/opt/veriftools/tla/CommunityModules-deps.jar"
 GUARD = "AMGCL_VERIF"
